@@ -124,7 +124,8 @@ structure Block where
   number : Nat
   hash : Nat
   parent : Nat
-  /-- protocol version class: 0 = below 0.14.0, 1 = 0.14.0, 2 = 0.14.1 and above -/
+  /-- protocol version class: 0 = below 0.14.0, 1 = 0.14.0, 2 = 0.14.1 up to the latest supported minor,
+  3 = above it (`CheckBlockVersion` refuses the block) -/
   ver : Nat
   txs : List Tx
   bloom : Nat
@@ -523,17 +524,20 @@ def filterReorg (cfg : Cfg) (f : Filter) (persisted : Map Nat (Map Nat Nat)) :
 
 /-! ### Store and RevertHead -/
 
-/-- `verifyBlockSuccession` (the protocol-version check is outside the model). -/
+/-- `verifyBlockSuccession`: `CheckBlockVersion` first (version class 3 = a minor version above the latest
+supported one, `core.LatestVer`), then the number and the parent hash against the head. -/
 def checkSuccession (nd : Node) (b : Block) : Except Err Unit :=
-  match nd.height with
-  | none =>
-    if b.number ≠ 0 then .error .blockNumber else if b.parent ≠ 0 then .error .parentHash else .ok ()
-  | some h =>
-    match Map.get nd.headers h with
-    | none => .error .notFound
-    | some hd =>
-      if b.number ≠ h + 1 then .error .blockNumber
-      else if b.parent ≠ hd.hash then .error .parentHash else .ok ()
+  if b.ver ≥ 3 then .error .version
+  else
+    match nd.height with
+    | none =>
+      if b.number ≠ 0 then .error .blockNumber else if b.parent ≠ 0 then .error .parentHash else .ok ()
+    | some h =>
+      match Map.get nd.headers h with
+      | none => .error .notFound
+      | some hd =>
+        if b.number ≠ h + 1 then .error .blockNumber
+        else if b.parent ≠ hd.hash then .error .parentHash else .ok ()
 
 def indexTxs (n : Nat) (loc : Map Nat (Nat × Nat)) (txs : List Tx) : Map Nat (Nat × Nat) :=
   (txs.zipIdx).foldl (fun m e => Map.set m e.1.hash (n, e.2)) loc
